@@ -994,6 +994,13 @@ def run(ctx):
                         "checker_cmd": "SKIPPED (C14_SKIP_PROOF=1, development only)", "trusted_base": TRUSTED})
     else:
         fails = vlib.proof_step(ctx, "TG.Props.C14", THEOREMS, ["props/C14.vo"], TRUSTED, translators=translators)
+        # a translator that refuses the source leaves its previous output in coq/gen: the theorems that speak about
+        # that output are NOT established for the current tree, whatever coqc says about the stale file
+        tr_failed = {f["translator"] for f in fails if f.get("kind") == "translator"}
+        if tr_failed:
+            stale = set(THEOREMS) if tr_failed - {"t_lexer"} else {t for t in THEOREMS if t.endswith("_source")}
+            ctx.cov["stale_generated_input"] = {"translators_failed": sorted(tr_failed), "theorems_not_established": sorted(stale)}
+            ctx.cov["discharged"] = max(0, ctx.cov.get("discharged", 0) - len([t for t in stale if ctx.cov.get("axioms_per_theorem", {}).get(t) == []]))
         cone = coq_cone("props/C14.v")
         ctx.cov["coq_cone"] = sorted(cone)
         fails = [f for f in fails if not (f.get("kind") == "forbidden-declaration"
